@@ -1026,7 +1026,7 @@ Section WriteFacts.
   Lemma wstep_lossless : enc_law -> forall st op r st' evs,
     wstep st op = (r, st', evs) -> wire evs ++ wbuf st' = wbuf st ++ accepted op r.
   Proof.
-    intros Hl st op r st' evs H. destruct op as [|it| |]; cbn [Framed.wstep] in H.
+    intros Hl st op r st' evs H. destruct op as [|it| | |]; cbn [Framed.wstep] in H.
     - destruct (write_ready st).
       + injection H as <- <- <-. cbn [wire accepted app]. now rewrite app_nil_r.
       + destruct (flush_spec _ _ _ _ H) as [Hw _]. cbn [accepted]. now rewrite app_nil_r.
@@ -1034,6 +1034,7 @@ Section WriteFacts.
         injection H as <- <- <-; cbn [wire accepted app wbuf]; rewrite ?Eb, ?app_nil_r; reflexivity.
     - destruct (flush_spec _ _ _ _ H) as [Hw _]. cbn [accepted]. now rewrite app_nil_r.
     - destruct (close_spec _ _ _ _ H) as [Hw _]. cbn [accepted]. now rewrite app_nil_r.
+    - injection H as <- <- <-. cbn [wire accepted app]. now rewrite app_nil_r.
   Qed.
 
   (* C14_lossless *)
@@ -1133,7 +1134,8 @@ Section WriteFacts.
     (r = RWriteZero <-> In EvWZero evs) /\
     (r = RWriteZero -> ends_with evs [EvWZero] /\ wbuf st' <> [] /\ wire evs ++ wbuf st' = wbuf st).
   Proof.
-    intros H. destruct op as [|it| |]; cbn [Framed.wstep] in H.
+    intros H. destruct op as [|it| | |]; cbn [Framed.wstep] in H;
+      [| | | |injection H as <- <- <-; split; [split; [discriminate|intros []]|discriminate]].
     - destruct (write_ready st).
       + injection H as <- <- <-. split; [split; [discriminate|intros []]|discriminate].
       + destruct (flush_spec _ _ _ _ H) as (Hw & _ & Hz & Hz2). split; [exact Hz|].
@@ -1145,6 +1147,10 @@ Section WriteFacts.
     - destruct (close_spec _ _ _ _ H) as (Hw & _ & Hz & Hz2). split; [exact Hz|].
       intros Hr. destruct (Hz2 Hr). auto.
   Qed.
+
+  (* the state-preserving conversions: no state change, no transport call, whatever is buffered stays buffered *)
+  Theorem conv_noop st : wstep st OConv = (ROk, st, []).
+  Proof. reflexivity. Qed.
 
   (* the transport answering 0 to the first write of a flush: WriteZero, buffer intact *)
   Theorem flush_zero_first st w :
